@@ -1,10 +1,14 @@
 SPECIFICATION Spec
 CONSTANTS
-  Constructs = {"map", "pp", "pfe", "worker", "pbuf", "split", "buffer", "merge", "gen", "multiread"}
+  Constructs = {"map", "pp", "pfe", "worker", "pbuf", "pbufg", "split", "buffer", "merge", "gen", "multiread"}
   MaxN = 4
   MaxK = 3
   AllowStop = FALSE
   RaceReps = 60000
+  FillReps = 0
+  MaxBurst = 0
+  BurstReps = 1
+  Opts = {}
   Depth = 1
 INVARIANT Inv
 CONSTRAINT EmitAll
